@@ -20,7 +20,7 @@ CHECKS = {
         "DESIGN.md §4 C07",
     ),
     "C12": (
-        "property-based testing (proptest) of BER configurations with a checker-supplied DecoderFactory as observation point; structural oracles (own GF(2) solve / re-encoding, exact zeros) and statistical oracles (+-7 sigma on recovered noise, 8PSK LLR inversion by Gauss-Newton)",
+        "property-based testing (proptest) of BER configurations (one to three Eb/N0 points per run) with a checker-supplied DecoderFactory as observation point; structural oracles (own GF(2) solve / re-encoding, exact zeros) and statistical oracles (+-7 sigma on recovered noise, 8PSK LLR inversion by Gauss-Newton)",
         "Generated configurations; every recorded frame checked structurally; noise statistics tested against the expected sigma with +-7 sigma acceptance. Exploration only; the engine's RNG is not seedable (see level note).",
         "The engine draws from rand::rng(): structural verdicts are draw-independent, statistical ones have per-test false-alarm probability < 3e-12. Hard decisions equal the sent bits at the generated noise levels (error < 1e-14 per sample: BPSK sigma <= 0.13, 8PSK sigma <= 0.048).",
         "DESIGN.md §4 C12",
@@ -44,7 +44,7 @@ CHECKS = {
         "DESIGN.md §4 C15",
     ),
     "C19": (
-        "differential property testing through the exported C symbols (extern \"C\" declarations from the header), each generated handle/history in a child process; reference = fresh Rust decoder/encoder on the same alist; generated failing constructors",
+        "differential property testing through the exported C symbols (extern \"C\" declarations from the header), each generated handle/history in a child process; reference = fresh Rust decoder/encoder on the same alist; iteration limits from 0 to 2^32-1; generated failing constructors",
         "Generated (alist, name, pattern, call history) compared call by call with the Rust API; aborts are caught by process isolation. Exploration only.",
         "Buffers have the documented lengths; reference decoder is built from the matrix parsed from the same alist text (order-sensitive arithmetics see the text's entry order).",
         "DESIGN.md §4 C19",
@@ -68,7 +68,7 @@ CHECKS = {
         "DESIGN.md §4 C03",
     ),
     "C04": (
-        "property-based testing + exhaustive enumeration (8-bit types: all degree-2 vectors, degree 3 partially in quick and completely in thorough) against an own numerically stable box-plus reference with derived tolerances",
+        "property-based testing + exhaustive enumeration (8-bit types: all degree-2 vectors, degree 3 partially in quick and completely in thorough; objects built by new() or Default::default()) against an own numerically stable box-plus reference with derived tolerances",
         "Every emitted check message is compared with the exact box-plus (or the documented approximation bounds / the real-valued counterpart within accumulated table rounding). Exhaustive for 8-bit degree 2 (and 3 in thorough), random beyond. Exploration only.",
         "Trusts the own box-plus reference (cross-checked at start-up against the tanh form) and the first-order error models behind the tolerances; working range |x| <= 30 (f64) / 12 (f32).",
         "DESIGN.md §4 C04",
